@@ -22,7 +22,7 @@ for pid in ALL:
             "text": P.get("level_text", "Lean 4 theorems about an executable model of the code (all inputs / schedules / histories, no size bound), kernel-checked and axiom-audited on every run; the model is tied to the current source by regenerated tables and by a differential correspondence run against the real code."),
             "design_ref": P.get("design_ref", "DESIGN.md §2 " + pid),
         },
-        "level_note": P.get("level_note", "Trusted: Lean kernel; axioms propext/Classical.choice/Quot.sound; translator + correspondence harness; agreement model=code established on explored cases only. " + " ".join(P.get("assumptions", []))),
+        "level_note": P.get("level_note", "Trusted: Lean kernel; axioms propext/Classical.choice/Quot.sound; translator + correspondence harness; agreement model=code established on explored cases only. " + P.get("level_note_extra", "") + " " + " ".join(P.get("assumptions", []))),
         "technique": P.get("technique", "Lean 4 machine-checked proof over a code-shaped model + model/implementation correspondence check"),
     })
 na = []
